@@ -293,7 +293,7 @@ def plan(tier, seed):
         jobs += [{'maker': 'c19_width', 'ncases': 24, 'ccs': BE_CCS, 'shrink_budget': 20, 'reduce_budget': 10} for _ in range(6)]
         jobs += [{'const': True, 'ncases': 6, 'nconst': 300} for _ in range(6)]
         jobs += [{'maker': 'c19_mixed', 'ncases': 10, 'ccs': BE_OPT_CCS, 'shrink_budget': 20, 'reduce_budget': 20} for _ in range(6)]
-        jobs += [{'stress': True, 'ncases': 8, 'builds': ['gcc-O2-be', 'clang-O2-be']} for _ in range(4)]
+        jobs += [{'stress': True, 'ncases': 8, 'builds': ['gcc-O2-be', 'clang-O2-be', 'clang-tsan-be']} for _ in range(4)]
         jobs += WASI_JOBS_QUICK
         return jobs
     jobs = [{'maker': 'c19_mem', 'ncases': 150, 'ccs': BE_CCS + LE_CCS, 'nsteps': 300, 'shrink_budget': 30, 'reduce_budget': 20} for _ in range(20)]
@@ -301,7 +301,7 @@ def plan(tier, seed):
     jobs += [{'maker': 'c19_width', 'ncases': 150, 'ccs': BE_CCS, 'shrink_budget': 30, 'reduce_budget': 20} for _ in range(12)]
     jobs += [{'const': True, 'ncases': 100, 'nconst': 600} for _ in range(12)]
     jobs += [{'maker': 'c19_mixed', 'ncases': 150, 'ccs': BE_OPT_CCS + LE_CCS, 'shrink_budget': 30, 'reduce_budget': 30} for _ in range(12)]
-    jobs += [{'stress': True, 'ncases': 100, 'builds': ['gcc-O2-be', 'clang-O2-be']} for _ in range(8)]
+    jobs += [{'stress': True, 'ncases': 100, 'builds': ['gcc-O2-be', 'clang-O2-be', 'clang-tsan-be']} for _ in range(8)]
     jobs += WASI_JOBS_THOROUGH
     return jobs
 
